@@ -591,3 +591,39 @@ def uninstall():
     strax.utils.wait = cf.wait
     strax.storage.common.wait = cf.wait
     fr.ThreadPoolExecutor = cf.ThreadPoolExecutor
+
+
+# ---------------------------------------------------------------- file operations as scheduling points
+class _IoOsPoints:
+    """stand-in for the `os` module inside strax.io: rename is a scheduling point (a pool worker writing a chunk can be
+    overtaken between creating the temporary file and renaming it)"""
+
+    def __getattr__(self, n):
+        import os as _os
+
+        return getattr(_os, n)
+
+    def rename(self, a, b):
+        import os as _os
+
+        fs_point("rename")
+        return _os.rename(a, b)
+
+
+def fs_point(what):
+    s = SCHED
+    if s is not None and not s.aborting and s.cur is not None:
+        s.point(waiting_on=("fs", what))
+
+
+def install_fs_points():
+    """make strax.io's open() and os.rename() scheduling points (used by checks that explore pool writers)"""
+    import builtins
+    import strax.io as sio
+
+    def v_open(*a, **k):
+        fs_point("open")
+        return builtins.open(*a, **k)
+
+    sio.open = v_open
+    sio.os = _IoOsPoints()
